@@ -341,11 +341,17 @@ def thorough(prop, mod, ctx, say):
     for pth in sorted(glob.glob(os.path.join(VERIF, "selftest", "benign_agents*", "*.diff"))):
         if prop in AREA.get(_re.sub(r"\d+$", "", os.path.basename(pth).split("_")[0]), ()):
             benign.append(pth)
+    # the benign pool has grown to several hundred patches: the thorough tier applies a deterministic sample of at most 40 per property
+    # (every k-th of the sorted list), the full pool is run by tools/sweep.py (DESIGN §14.1)
+    cap = int(os.environ.get("PV_BENIGN_CAP", "40"))
+    if len(benign) > cap:
+        step = len(benign) / float(cap)
+        benign = [benign[int(i * step)] for i in range(cap)]
     res = {"mutants": {}, "benign": {}, "stale": []}
     failed = []
     import sweep
     allp = muts + seeds + benign
-    results = sweep.run_jobs([(p, [prop]) for p in allp], lanes=int(os.environ.get("PV_LANES", "4"))) if allp else {}
+    results = sweep.run_jobs([(p, [prop]) for p in allp], lanes=int(os.environ.get("PV_LANES", "6"))) if allp else {}
     for p in muts + seeds:
         name = os.path.relpath(p, VERIF)
         r = results.get(os.path.abspath(p), {})
